@@ -298,14 +298,25 @@ func checkC02(c C02Case) h.Outcome {
 				o.Violation = h.V("honourable-rejected/"+c.Kind, "%s rejected a signature that must be honoured (signer %v, keyinfo %s, store %v, clock %s): %v", r.entry, c.Signer, c.KeyInfo, c.SP.Store, c.ClockPos, r.err)
 				return o
 			}
-			wantRoot := c.Kind != "assertion"
-			if r.rootFlag != wantRoot {
-				o.Violation = h.V("flag-mismatch/"+c.Kind, "%s: root flag %v want %v", r.entry, r.rootFlag, wantRoot)
-				return o
-			}
-			if c.Kind == "assertion" && (len(r.asrtFlags) != 1 || !r.asrtFlags[0]) {
-				o.Violation = h.V("flag-mismatch/assertion", "%s: assertion flags %v", r.entry, r.asrtFlags)
-				return o
+			// logout kinds: the flag is true exactly when the root signature verified (C10). SSO kinds: C04's
+			// rules — a root flag needs a signed root; root flag false needs every assertion flagged, and an
+			// assertion flag needs an own signature. With exactly one signed element this pins both flags.
+			switch c.Kind {
+			case "LogoutRequest", "LogoutResponse":
+				if !r.rootFlag {
+					o.Violation = h.V("flag-mismatch/"+c.Kind, "%s: signature honoured but SignatureValidated=false", r.entry)
+					return o
+				}
+			case "response":
+				if !r.rootFlag || (len(r.asrtFlags) > 0 && r.asrtFlags[0]) {
+					o.Violation = h.V("flag-mismatch/response", "%s: root flag %v, assertion flags %v for a signed Response with an unsigned assertion", r.entry, r.rootFlag, r.asrtFlags)
+					return o
+				}
+			case "assertion":
+				if r.rootFlag || len(r.asrtFlags) != 1 || !r.asrtFlags[0] {
+					o.Violation = h.V("flag-mismatch/assertion", "%s: root flag %v, assertion flags %v for an unsigned Response with a signed assertion", r.entry, r.rootFlag, r.asrtFlags)
+					return o
+				}
 			}
 			continue
 		}
